@@ -27,7 +27,7 @@ EXC_MOD = "pregex.core.exceptions"
 CORE_BUILD_MODULES = ["pregex.core.operators", "pregex.core.quantifiers", "pregex.core.groups", "pregex.core.assertions",
                       "pregex.core.classes", "pregex.core.tokens"]
 ESS = "pregex.meta.essentials"
-BAD_VALUES = [None, 5, 0, -1, 1.5, True, "x", "", "xy", [], ["a"], 10 ** 6]
+BAD_VALUES = [None, 5, 0, -1, 1.5, True, "x", "", "xy", [], ["a"], 10, 100, 10 ** 6]
 FIXTURE = """
 def f(x):
     try:
